@@ -14,15 +14,19 @@ macro "codec_simp" " [" ts:Lean.Parser.Tactic.simpLemma,* "]" : tactic =>
       processRequestBody, asDict, validateMessage, getD, requestArgs, singleRequest, responseValue,
       bestEffortError, requestPayload, responsePayload, errorPayload, errorObj, mkError,
       responseMessagePayload, memberPayload, protocolForPayload, detectProtocol,
-      J.isList, J.isDict, J.isNone, J.isNumber, J.isStr, J.isInt, kId, kMethod, kJsonrpc, kParams,
+      J.isList, J.isDict, J.isNone, J.isNumber, J.isStr, J.isInt, J.isBool, kId, kMethod, kJsonrpc, kParams,
       kResult, kError, kCode, kMessage, s20, s10, $ts,*])
 
 /-- request arguments: a list (or tuple) or a dict -/
 def Args (a : J) : Prop := a.isList = true ∨ a.isDict = true
-/-- ids a 2.0 / Loose request can carry -/
-def ReqId (rid : J) : Prop := rid.isNumber = true ∨ rid.isStr = true
+/-- a JSON number: `int` or `float`, not `bool` -/
+def isJsonNumber : J → Bool
+  | .int _ | .float _ => true
+  | _ => false
+/-- ids a 2.0 / Loose request can carry: numbers and strings -/
+def ReqId (rid : J) : Prop := isJsonNumber rid = true ∨ rid.isStr = true
 /-- ids a 2.0 / Loose response can carry (`null` included) -/
-def RespId (rid : J) : Prop := rid.isNumber = true ∨ rid.isStr = true ∨ rid.isNone = true
+def RespId (rid : J) : Prop := isJsonNumber rid = true ∨ rid.isStr = true ∨ rid.isNone = true
 
 theorem ReqId.respId {rid : J} (h : ReqId rid) : RespId rid := by
   rcases h with h | h
@@ -30,6 +34,6 @@ theorem ReqId.respId {rid : J} (h : ReqId rid) : RespId rid := by
   · exact Or.inr (Or.inl h)
 
 theorem ReqId.notNone {rid : J} (h : ReqId rid) : rid.isNone = false := by
-  cases rid <;> simp_all [ReqId, J.isNumber, J.isStr, J.isNone]
+  cases rid <;> simp_all [ReqId, isJsonNumber, J.isStr, J.isNone]
 
 end Aiorpcx.C04
